@@ -140,7 +140,6 @@ func stubConc(c *common, rng *hxlib.Rng, out *hxlib.Out) int {
 	return 0
 }
 
-
 type c12Op struct {
 	K int `json:"k"` // 0 Lookup(b,t) 1 Apply(h,k) 2 Return(h,r) 3 When(h,v,r) 4 Cancel(h) 5 Reset(b) 6 Pkg(b,p) 7 VarLookup(b)
 	A int `json:"a"`
@@ -149,6 +148,18 @@ type c12Op struct {
 }
 
 var c12Dummy int
+
+var c12AdaptersF = map[mocker.UnExportedMocker]*c02UM{}
+
+// c12AdaptF: as c02Adapt, for an unexported function of type func(int) int
+func c12AdaptF(um mocker.UnExportedMocker) mocker.ExportedMocker {
+	if a, ok := c12AdaptersF[um]; ok {
+		return a
+	}
+	a := &c02UM{um, func(a int) int { return 0 }, false}
+	c12AdaptersF[um] = a
+	return a
+}
 
 // stubC12: mocker-level histories on 4 targets, probes of every target with arguments 0,1,2 after every step.
 func stubC12(c *common, rng *hxlib.Rng, out *hxlib.Out) int {
@@ -171,6 +182,13 @@ func stubC12(c *common, rng *hxlib.Rng, out *hxlib.Out) int {
 		{func(b *mocker.Builder) mocker.ExportedMocker { return b.Func(fnzoo.G1) }, fnzoo.G1, func(k int) interface{} { return func(a int) int { return 500 + k } }, -1100},
 		{func(b *mocker.Builder) mocker.ExportedMocker { return b.Struct(&fnzoo.T{}).Method("M2") }, tt.M2, func(k int) interface{} { return func(_ *fnzoo.T, a int) int { return 500 + k } }, -7501},
 		{func(b *mocker.Builder) mocker.ExportedMocker { return b.Struct(&fnzoo.T{}).Method("M") }, tt.M, func(k int) interface{} { return func(_ *fnzoo.T, a int) int { return 500 + k } }, -7001},
+		// an UNEXPORTED method of the same struct and an unexported function, looked up by name
+		{func(b *mocker.Builder) mocker.ExportedMocker {
+			return c02Adapt(b.Struct(&fnzoo.T{}).ExportMethod("um1"))
+		}, tt.CallUm1, func(k int) interface{} { return func(_ *fnzoo.T, a int) int { return 500 + k } }, -7201},
+		{func(b *mocker.Builder) mocker.ExportedMocker {
+			return c12AdaptF(b.Pkg("github.com/tencent/goom/verifharness/zoo/fnzoo").ExportFunc("uf1"))
+		}, fnzoo.CallUf1, func(k int) interface{} { return func(a int) int { return 500 + k } }, -7400},
 	}
 	pkgs := []string{"github.com/tencent/goom/test", "some/other/pkg", "x"}
 	// journal: every operation is written (unbuffered) BEFORE it is executed and probed, so that a fatal crash
@@ -188,7 +206,8 @@ func stubC12(c *common, rng *hxlib.Rng, out *hxlib.Out) int {
 		for i := range owner {
 			owner[i] = rng.Intn(nb)
 		}
-		owner[3] = owner[2] // the two methods of one struct go through the same builder (shared struct-level cache)
+		owner[3] = owner[2] // the methods of one struct go through the same builder (shared struct-level cache)
+		owner[4] = owner[2]
 		var handles []mocker.ExportedMocker
 		var htgt []int
 		var hstale []bool
